@@ -180,23 +180,16 @@ func (e naiveEngine) oneStepEvalPremise(premise ast.Term, subst unionfind.UnionF
 			return nil
 		})
 	case ast.NegAtom:
-		a, err := functional.EvalAtom(p.Atom, subst)
-		if err != nil {
-			return nil
+		if sols, err := premiseNegAtom(p.Atom, e.store, subst); err == nil {
+			return sols
 		}
-		e.store.GetFacts(a, func(fact ast.Atom) error {
-			if _, err := unionfind.UnifyTermsExtend(p.Atom.Args, fact.Args, subst); err != nil {
-				solutions = append(solutions, subst)
-			}
-			return nil
-		})
 	case ast.Eq:
-		if newsubst, err := unionfind.UnifyTermsExtend([]ast.BaseTerm{p.Left}, []ast.BaseTerm{p.Right}, subst); err == nil {
-			solutions = append(solutions, newsubst)
+		if sols, err := premiseEq(p.Left, p.Right, subst); err == nil {
+			return sols
 		}
 	case ast.Ineq:
-		if _, err := unionfind.UnifyTermsExtend([]ast.BaseTerm{p.Left}, []ast.BaseTerm{p.Right}, subst); err != nil {
-			solutions = append(solutions, subst)
+		if sols, err := premiseIneq(p.Left, p.Right, subst); err == nil {
+			return sols
 		}
 	}
 	return solutions
